@@ -140,7 +140,7 @@ func runC13(c *Ctx) {
 	// ---------------- U1: every for-all loop in the validator packages rejects only
 	nU := 0
 	for _, f := range c.Funcs {
-		pp := f.Pkg.Pkg.Path()
+		pp := pkgPathOf(f)
 		if pp == pv || strings.HasSuffix(pp, "/docvalidator/didvalidator") || strings.HasSuffix(pp, "/docvalidator/docvalidator") || pp == modPkg+pParser {
 			nU += c.ruleU("C13.U1", f)
 		}
@@ -519,7 +519,6 @@ func (c *Ctx) endpointListRule(k string, entry *ssa.Function, uriOK func(pathPre
 	c.Check("C13.G1", k+":list-endpoint-handlers", n >= 2, entry.Pos(), fmt.Sprintf("%d list-endpoint handlers ([]string and []interface{}) found in the call tree of %s", n, short(entry.String())))
 }
 
-
 type pathPred = func(string) bool
 
 func wrapP(prefix string, inner pathPred) pathPred {
@@ -538,7 +537,7 @@ func sufP(p pathPred, suf string) pathPred {
 // jwkValidateRules: Validate rejects a missing kty; for kty RSA a missing n or e; otherwise a missing crv or x.
 func (c *Ctx) jwkValidateRules(rule, key string, f *ssa.Function, member func(string) pathPred) {
 	c.CheckGuard(rule, key+":kty-required", f, nil, cmpReject(`kty == "" rejected`, token.EQL, member("Kty"), pathIs(`""`)))
-	isRSA := cmpReject(`kty == "RSA"`, token.EQL, member("Kty"), pathIs(`"RSA"`))   // success edge: kty != RSA
+	isRSA := cmpReject(`kty == "RSA"`, token.EQL, member("Kty"), pathIs(`"RSA"`))  // success edge: kty != RSA
 	notRSA := cmpAccept(`kty == "RSA"`, token.EQL, member("Kty"), pathIs(`"RSA"`)) // success edge: kty == RSA
 	for _, m := range []string{"N", "E"} {
 		c.CheckGuard(rule, key+":rsa-"+strings.ToLower(m)+"-required", f, nil, anyOf("not RSA, or "+m+" present", isRSA, cmpReject(m+` == "" rejected`, token.EQL, member(m), pathIs(`""`))))
@@ -547,4 +546,3 @@ func (c *Ctx) jwkValidateRules(rule, key string, f *ssa.Function, member func(st
 		c.CheckGuard(rule, key+":"+strings.ToLower(m)+"-required-unless-rsa", f, nil, anyOf("RSA, or "+m+" present", notRSA, cmpReject(m+` == "" rejected`, token.EQL, member(m), pathIs(`""`))))
 	}
 }
-
